@@ -3585,6 +3585,16 @@ def cli_main():
         for d in include_dirs:
             log.info('search: {}'.format(d))
 
+    # make sure every output file can be created before any of them gets written
+    outputs = [args.output]
+    if args.labels:
+        outputs.append(args.labels)
+    if hex_offset is not None:
+        outputs.append(args.output + '.hex')
+    for path in outputs:
+        if os.path.isdir(path) or not os.path.isdir(os.path.dirname(os.path.abspath(path))):
+            raise SystemExit('cannot write output file: {}'.format(path))
+
     if args.labels:
         lines = ['{} 0x{:08x}\n'.format(k, v) for k, v in labels.items()]
         with open(args.labels, 'w') as f:
